@@ -183,7 +183,12 @@ def check(case: Dict[str, Any]) -> Outcome:
 
     async def main():
         with install("http", handler):
-            async with http_client(StreamableHTTPParameters(url=URL, timeout=5.0)) as (r, w):
+            pk: Dict[str, Any] = {}
+            if case.get("init_session"):
+                pk["session_id"] = case["init_session"]  # reconnecting to an existing session
+            if case.get("cfg_headers"):
+                pk["headers"] = dict(case["cfg_headers"])
+            async with http_client(StreamableHTTPParameters(url=URL, timeout=5.0, **pk)) as (r, w):
                 for i, st_ in enumerate(all_steps):
                     wire = _out_msg(st_["msg"])
                     is_sse = st_["beh"].get("ctype", "json").startswith("sse")
@@ -312,7 +317,7 @@ def check(case: Dict[str, Any]) -> Outcome:
                 return out
 
     # ---------------------------------------------------------------- session header
-    current: Optional[str] = None
+    current: Optional[str] = case.get("init_session") or None
     for i, st_ in enumerate(all_steps):
         reqs = [s for s in seen if s["step"] == i]
         for rq in reqs:
@@ -454,7 +459,12 @@ def cases(draw):
         else:
             msg = {"kind": "request", "id": draw(st.sampled_from([f"r-{k}", "123", "a b", "é"])) if mk == "request-str" else draw(st.sampled_from([k + 1, 0, 2**53 + 1, -5]))}
         steps.append({"msg": msg, "beh": draw(behaviour())})
-    return {"steps": steps}
+    case: Dict[str, Any] = {"steps": steps}
+    if draw(st.integers(0, 3)) == 0:
+        case["init_session"] = draw(st.sampled_from(["cfg-0", "S1", "s e"]))
+    if draw(st.integers(0, 3)) == 0:
+        case["cfg_headers"] = draw(st.sampled_from([{"X-Trace": "t1"}, {"Authorization": "Bearer x"}, {"X-A": "1", "X-B": "2"}]))
+    return case
 
 
 def job_hyp(col: Collector, seed: int, tier: str, shard: int, n: int) -> None:
